@@ -36,6 +36,8 @@ func (o c10op) String() string {
 		return fmt.Sprintf("AddRule(%s,%s)", o.Id, o.Ver)
 	case "addexp":
 		return fmt.Sprintf("AddRule(%s,v1,expires=T0+2s)", o.Id)
+	case "rem!0", "rem!1":
+		return fmt.Sprintf("RemRule(%s) with storage call #%s of it failing", o.Id, o.Kind[4:])
 	case "rem":
 		return fmt.Sprintf("RemRule(%s)", o.Id)
 	case "enable":
@@ -67,6 +69,10 @@ func c10Ops(ids []string) []c10op {
 		ops = append(ops, c10op{"add", id, "v1"}, c10op{"add", id, "v2"}, c10op{"addexp", id, "v1"},
 			c10op{"rem", id, ""}, c10op{"disable", id, ""}, c10op{"enable", id, ""})
 	}
+	// RemRule while the storage refuses its first / second mutating call
+	for _, id := range ids[:1] {
+		ops = append(ops, c10op{"rem!0", id, ""}, c10op{"rem!1", id, ""})
+	}
 	ops = append(ops, c10op{"reload", "", ""}, c10op{"locoff", "", ""}, c10op{"locon", "", ""}, c10op{"expire", "", ""})
 	return ops
 }
@@ -88,6 +94,7 @@ type c10inst struct {
 	}
 	ctx    *core.Context
 	store  *core.MemStorage
+	rec    *lib.RecStore  // what the locations write through (fault injection)
 	loc    *core.Location // the location events are sent to
 	home   *core.Location // where rules live (== loc, or the parent)
 	rules  map[string]*c10rule
@@ -106,10 +113,13 @@ func (in *c10inst) cfg() string {
 }
 
 func (in *c10inst) open() {
-	in.loc = lib.MustLoc(in.ctx, in.kind, "L", in.store)
+	if in.rec == nil {
+		in.rec = lib.NewRecStore(in.store)
+	}
+	in.loc = lib.MustLoc(in.ctx, in.kind, "L", in.rec)
 	in.home = in.loc
 	if in.parent {
-		in.home = lib.MustLoc(in.ctx, in.kind, "P", in.store)
+		in.home = lib.MustLoc(in.ctx, in.kind, "P", in.rec)
 		prov := core.NewSimpleLocationProvider(map[string]*core.Location{"L": in.loc, "P": in.home})
 		in.loc.Provider, in.home.Provider = prov, prov
 	}
@@ -303,6 +313,31 @@ func (in *c10inst) Apply(opi int) *lib.Violation {
 				delete(in.unk, op.Id)
 			}
 			in.rules[op.Id] = &c10rule{ver: op.Ver, expires: op.Kind == "addexp"}
+		}
+	case "rem!0", "rem!1":
+		if homeOff || in.liveRule(op.Id) == nil {
+			return &lib.Violation{Signature: "prune", Prune: true}
+		}
+		in.rec.FailAt = in.rec.Mutations() + int(op.Kind[4]-'0')
+		_, err := in.home.RemRule(in.ctx, op.Id)
+		in.rec.FailAt = -1
+		_, gerr := in.home.GetRule(in.ctx, op.Id)
+		switch {
+		case err == nil || gerr != nil:
+			// acknowledged, or failed with the rule gone: the rule no longer exists; what
+			// became of its flag after a FAILED removal is left unspecified until the next toggle
+			delete(in.rules, op.Id)
+			if err != nil && (in.dis[op.Id] || in.home != in.loc) {
+				in.unk[op.Id] = true
+			} else if in.home == in.loc {
+				delete(in.dis, op.Id)
+				delete(in.unk, op.Id)
+			} else if in.dis[op.Id] {
+				in.unk[op.Id] = true
+			}
+		default:
+			// failed and the rule is still there: it is the same rule as before, with the
+			// same flag - a removal that did not happen must not re-enable it
 		}
 	case "rem":
 		_, err := in.home.RemRule(in.ctx, op.Id)
